@@ -1823,10 +1823,49 @@ def knill_smallphase_probe(ctx):
             ctx.ok(key, nontrivial=True, sample={"estimate": est, "circuit_cx": cx})
 
 
+def knill_repeated_eigenvalue_probe(ctx):
+    """Knill's estimate and Knill's synthesis must use the SAME eigenbasis: unitaries with a repeated eigenvalue other than 1,
+    where different orthonormal bases of the eigenspace have different Schmidt rank (LAPACK's eig returns entangled combinations
+    where the Schur form returns product vectors).  Exact structured inputs; estimate == circuit holds for them on the code
+    as it is."""
+    import functools
+    import math
+    import numpy as np
+    from qclib.isometry import decompose, cnot_count
+    X = np.array([[0, 1], [1, 0]], dtype=complex)
+    Y = np.array([[0, -1j], [1j, 0]])
+    Z = np.diag([1, -1]).astype(complex)
+    I2 = np.eye(2, dtype=complex)
+    H = np.array([[1, 1], [1, -1]], dtype=complex) / math.sqrt(2)
+    k = lambda *m: functools.reduce(np.kron, m)     # noqa: E731
+    cases = {"e^0.3i X(x)Z": np.exp(0.3j) * k(X, Z), "e^i Y(x)Z": np.exp(1j) * k(Y, Z),
+             "(H(x)I)diag(i,-1,-1,i)(H(x)I)": k(H, I2) @ np.diag([1j, -1, -1, 1j]) @ k(H, I2),
+             "e^0.3i I(x)X(x)Z": np.exp(0.3j) * k(I2, X, Z), "e^0.3i X(x)X(x)Z": np.exp(0.3j) * k(X, X, Z)}
+    for name, u in cases.items():
+        n = int(round(math.log2(len(u))))
+        for m in (n, n - 1):
+            key = f"isometry.cnot_count:knill:repeated-eigenvalue:n={n}:m={m}:{name}"
+            rep = {"call": "qclib.isometry.cnot_count(V, 'knill', 'estimate') vs cx count of decompose(V, 'knill')", "n": n, "m": m,
+                   "matrix": name, "how": "V = first 2^m columns of the named matrix (tools/props/c10.py knill_repeated_eigenvalue_probe)"}
+            ctx.count("boundary:knill-repeated-eigenvalue")
+            try:
+                v = u[:, : 2 ** m]
+                est = int(cnot_count(v.copy(), "knill", "estimate"))
+                cx = cx_count(decompose(v.copy(), "knill"))
+            except Exception as e:  # noqa: BLE001
+                ctx.fail(key + ":raises", f"{type(e).__name__}: {str(e)[:200]}", rep)
+                continue
+            if est != cx:
+                ctx.fail(key + f":diff={est - cx:+d}", f"estimate {est} != circuit {cx}", dict(rep, estimate=est, circuit=cx))
+            else:
+                ctx.ok(key, nontrivial=True, sample={"estimate": est, "circuit_cx": cx})
+
+
 def run(ctx):
     quick = ctx.quick
     gen_ties(ctx, big=not quick)
     knill_smallphase_probe(ctx)
+    knill_repeated_eigenvalue_probe(ctx)
     cost_ties(ctx)
     jobs = []
     jobs += unitary_cases(ctx, 6 if quick else 7, 5 if quick else 6)
@@ -1862,6 +1901,7 @@ def search(ctx, hints):
         if op.get("op") == "ccdshape":
             jobs.append(("isometry", op["n"], op["m"], "ccd", ctx.rng.getrandbits(30), False))
     knill_smallphase_probe(ctx)
+    knill_repeated_eigenvalue_probe(ctx)
     jobs += unitary_cases(ctx, 6, 5)
     jobs += isometry_cases(ctx, 6, 3)
     jobs += lowrank_cases(ctx, 4, 8, 4)
@@ -1871,6 +1911,9 @@ def search(ctx, hints):
 
 def replay(ctx, payload):
     r = payload["replay"]
+    if "matrix" in r and "job" not in r:    # knill_repeated_eigenvalue_probe case (fixed inputs: the whole probe is re-run)
+        knill_repeated_eigenvalue_probe(ctx)
+        return
     if "tiny" in r and "mode" in r:         # knill_smallphase_probe case
         from qclib.isometry import decompose, cnot_count
         v = knill_smallphase_matrix(r["n"], r["m"], r["tiny"], r["mode"], r["seed"])
